@@ -62,7 +62,10 @@ def gen_op(rng, state):
             m[str(rng.choice([-1, n, n + 3]))] = True
         if not m:
             m[str(rng.randrange(n))] = True
-        return {"op": "set_mask", "slot": k, "mask": m}
+        rec = {"op": "set_mask", "slot": k, "mask": m}
+        if rng.random() < 0.2:
+            rec["np_bool"] = True  # flags as numpy.bool_, what `{i: f > 500 for i, f in enumerate(freqs)}` produces
+        return rec
     if op == "clear":
         return {"op": "set_mask", "slot": k, "mask": {}}
     if op in ("low", "high"):
@@ -123,7 +126,10 @@ def _gen_construct(rng):
                 mask[str(rng.randrange(n))] = False
             if rng.random() < 0.15:
                 mask[str(n + rng.randint(0, 3))] = True
-    return {"op": "construct", "f": f, "Z": Z, "mask": mask}
+    rec = {"op": "construct", "f": f, "Z": Z, "mask": mask}
+    if mask and rng.random() < 0.15:
+        rec["np_bool"] = True
+    return rec
 
 
 # ------------------------------------------------------------------- execution
@@ -161,6 +167,8 @@ def _check_slot(ds, model):
             return "view-mismatch", f"get_magnitudes(masked={m}) disagrees with the impedances of the same view"
         if gph.shape != eZ.shape:
             return "view-mismatch", f"get_phases(masked={m}) has {gph.shape[0]} entries for {len(pts)} points"
+        if not np.allclose(gph, np.angle(eZ, deg=True), rtol=1e-12, atol=1e-12):
+            return "view-mismatch", f"get_phases(masked={m}) disagrees with the impedances of the same view"
         re_, nim = ds.get_nyquist_data(masked=m)
         bf, bmag, bph = ds.get_bode_data(masked=m)
         if len(re_) != len(pts) or len(nim) != len(pts) or not np.allclose(re_, eZ.real, rtol=1e-12, atol=0.0) or not np.allclose(nim, -eZ.imag, rtol=1e-12, atol=0.0):
@@ -173,6 +181,27 @@ def _check_slot(ds, model):
     flags = [bool(mask[i]) for i in range(len(model))]
     if flags != [t[2] for t in model]:
         return "view-mismatch", f"get_mask() flags {flags} but the model says {[t[2] for t in model]}"
+    return None
+
+
+def _check_dataframe(ds, model):
+    """The tabular view (to_dataframe) of every mask selection: each row is one point of the model, in the same order."""
+    model = sorted(model, key=lambda t: -t[0])
+    for m in (None, False, True):
+        pts = [t for t in model if m is None or t[2] == m]
+        ef = np.array([t[0] for t in pts], dtype=float)
+        eZ = np.array([t[1] for t in pts], dtype=complex)
+        for neg_im, neg_ph in ((False, False), (True, True)):
+            df = ds.to_dataframe(masked=m, negative_imaginary=neg_im, negative_phase=neg_ph)
+            cols = list(df.columns)
+            if len(df) != len(pts) or len(cols) != 5:
+                return "view-mismatch", f"to_dataframe(masked={m}) has shape {df.shape} for {len(pts)} points"
+            a = [np.asarray(df[c], dtype=float) for c in cols]
+            if not (np.array_equal(a[0], ef) and np.allclose(a[1], eZ.real, rtol=1e-12, atol=0.0)
+                    and np.allclose(a[2], eZ.imag * (-1 if neg_im else 1), rtol=1e-12, atol=0.0)
+                    and np.allclose(a[3], np.abs(eZ), rtol=1e-12, atol=0.0)
+                    and np.allclose(a[4], np.angle(eZ, deg=True) * (-1 if neg_ph else 1), rtol=1e-12, atol=1e-12)):
+                return "view-mismatch", f"to_dataframe(masked={m}, negative_imaginary={neg_im}, negative_phase={neg_ph}) rows disagree with the points of that view"
     return None
 
 
@@ -209,7 +238,9 @@ def _hold(state, kind, obj, what):
         state["held"].pop(0)
 
 
-def _imask(m):
+def _imask(m, np_bool=False):
+    if np_bool:
+        return {int(k): np.bool_(v) for k, v in m.items()}
     return {int(k): v for k, v in m.items()}
 
 
@@ -231,7 +262,9 @@ def apply(state, rec):
                 ds = DataSet(f, Z)
                 mask = {}
             else:
-                mask = _imask(rec["mask"])
+                mask = _imask(rec["mask"], rec.get("np_bool"))
+                if rec.get("np_bool"):
+                    stats["restarts"]["numpy_bool_mask_values"] += 1
                 _hold(state, "constructor-mask", mask, "the mask dictionary passed to DataSet(...)")
                 ds = DataSet(f, Z, mask=mask)
                 mask = state["held"][-1]["snap"]
@@ -242,7 +275,9 @@ def apply(state, rec):
             model = [[float(f[i]), complex(Z[i]), bool(mask.get(i, False))] for i in range(n)]
             _add_slot(state, ds, model)
         elif op == "set_mask":
-            m = _imask(rec["mask"])
+            m = _imask(rec["mask"], rec.get("np_bool"))
+            if rec.get("np_bool"):
+                stats["restarts"]["numpy_bool_mask_values"] += 1
             _hold(state, "set_mask-mask", m, "the mask dictionary passed to set_mask(...)")
             s["ds"].set_mask(m)
             model = s["model"]
@@ -367,6 +402,15 @@ def apply(state, rec):
             _views(s["ds"])
             s["ds"].get_nyquist_data()
             s["ds"].get_bode_data()
+            r = _check_dataframe(s["ds"], s["model"])
+            if r:
+                return _viol(r[0], rec, f"data set in slot {rec['slot']}: {r[1]}")
+            # the selection flag given as a numpy bool (a comparison result) selects the same view as the Python bool
+            for m in (False, True):
+                a = np.array(s["ds"].get_frequencies(masked=np.bool_(m)), dtype=float)
+                b = np.array(s["ds"].get_frequencies(masked=m), dtype=float)
+                if a.shape != b.shape or not np.array_equal(a, b):
+                    return _viol("view-mismatch", rec, f"get_frequencies(masked=numpy.bool_({m})) = {a.tolist()} but get_frequencies(masked={m}) = {b.tolist()}")
         elif op == "export":
             stats["restarts"]["export_held"] += 1
             d = s["ds"].to_dict()
